@@ -161,15 +161,22 @@ def gen_config(r, n, pool, w, clean=False):
 
 
 def ranges_of(cfg, n):
-    """frames covered by a valid range key of a list-wide pass"""
+    """frames possibly covered by a range key of a list-wide pass, read the way the editor reads a key
+    (range_string_to_tuple: the two parts before / after the first '-', a part that is not a number counts as 0),
+    clamped to the list: a superset is fine, the oracle only looks at frames outside every range"""
+    def num(x):
+        x = x.strip()
+        if x.startswith("+"):
+            x = x[1:]
+        return int(x) if x.isdigit() else 0
     cov = set()
     for m in ((cfg.get("scene_cuts") or {}), ((cfg.get("active_area") or {}).get("edits") or {})):
         for k in m:
-            try:
-                a, b = k.split("-")
-                cov.update(range(int(a), int(b) + 1))
-            except Exception:
-                pass
+            if "-" not in k:
+                continue
+            parts = k.split("-")
+            a, b = num(parts[0]), num(parts[1])
+            cov.update(range(max(0, min(a, n)), min(b, n - 1) + 1))
     return cov
 
 
